@@ -58,6 +58,26 @@ pub fn run(id: &str) -> i32 {
         "KF9" => {
             catch_unwind(|| ArrivalCurvePrefix::from_arrival_bound_until(&Never {}, d(10)).number_arrivals(d(3))).is_err()
         }
+        // KF10: ECRTS'19 timer analysis with a multiframe cost model: an offset BETWEEN two demand steps dominates
+        // (least_wcet_in_interval drops when the second, cheaper job arrives and widens the interference interval),
+        // the step-only search space returns 24 where the evaluation over every offset gives 25
+        "KF10" => {
+            use response_time_analysis::arrival::Sporadic as Sp;
+            use response_time_analysis::demand::{self, RBF};
+            use response_time_analysis::ros2;
+            let own = RBF::new(Sp::new(d(26), d(0)), wcet::Multiframe::new(vec![s(4), s(1)]));
+            let others = vec![RBF::new(Sp::new(d(27), d(0)), wcet::Scalar::new(s(2))), RBF::new(Sp::new(d(5), d(0)), wcet::Scalar::new(s(4)))];
+            let lib = ros2::rta_timer(&supply::Dedicated::new(), &own, &demand::Slice::of(&others), s(1), d(300)).ok().map(u64::from);
+            // every offset A in [0, max_bw], dedicated processor: least r with A + r >= own(A+1) + others(I) + b
+            let na = |t: u64, x: u64| if x == 0 { 0 } else { (x + t - 1) / t };
+            let own_rbf = |x: u64| { let n = na(26, x); (n / 2) * 5 + if n % 2 == 1 { 4 } else { 0 } };
+            let lw = |x: u64| match na(26, x) { 0 => 0, 1 => 4, _ => 1 };
+            let oth = |x: u64| 2 * na(27, x) + 4 * na(5, x);
+            let scan = |a: u64, w: &dyn Fn(u64) -> u64| (0..=300u64).find(|r| a + r >= w((*r).max(1)));
+            let max_bw = scan(0, &|x| own_rbf(x) + 1 + oth(x)).unwrap();
+            let every = (0..=max_bw).map(|a| scan(a, &|r| { let w = lw(a + r); let iv = if r > w { a + r - w + 1 } else { a + 1 }; own_rbf(a + 1) + oth(iv) + 1 }).unwrap()).max().unwrap();
+            lib == Some(24) && every == 25
+        }
         _ => { eprintln!("unknown witness {}", id); return 2; }
     };
     println!("{} {}", id, if reproduces { "reproduces" } else { "does not reproduce" });
